@@ -50,6 +50,13 @@ def build (variant : String) (nops nsts : Nat) : Blk :=
   | "vp-points-differ" => { b with avpRound := 1 }
   | "no-ops-root-set" => { b with ops := [], opsTree := [], mOpsRoot := some [999] }
   | "empty-ops-tree-root-set" => { b with ops := [], opsTree := [], mOpsRoot := some [999] }
+  | "ok-empty" => { b with ops := [], opsTree := [], mOpsRoot := none, sts := [], stsTree := [], mStsRoot := none }
+  | "ops-without-root" => { b with mOpsRoot := none }
+  | "states-without-root" => { b with mStsRoot := none }
+  -- a tree whose leaf carries another key under the old node hash is not a tree of the manifest root (ideal hash:
+  -- the root is identified with the key list)
+  | "op-replaced-at-leaf" => { b with ops := ops.dropLast ++ [60], opsTree := ops.dropLast ++ [60] }
+  | "state-replaced-at-leaf" => { b with sts := sts.dropLast ++ [(160, h)], stsTree := (sts.map (·.1)).dropLast ++ [160] }
   | _ => b
 
 def verdict (x : Bool) : String := if x then "accept" else "reject"
